@@ -6905,10 +6905,22 @@ let rec read_k fuel k b acc =
 let body_fuel b =
   (body_src b).sfuel
 
+(** val carry_of : src -> bytes **)
+
+let carry_of s =
+  app s.bbuf s.lo
+
+(** val with_carry : bytes -> bytes list -> bytes list **)
+
+let with_carry c sg =
+  match c with
+  | [] -> sg
+  | _ :: _ -> c :: sg
+
 (** val after_drop : body -> bytes list **)
 
 let after_drop b =
-  (body_src (drain (body_fuel b) b)).segs0
+  let s = body_src (drain (body_fuel b) b) in with_carry (carry_of s) s.segs0
 
 (** val located : bool -> body -> bool **)
 
